@@ -85,7 +85,8 @@ func childMain(specPath string) {
 type killSpec struct {
 	Mode    string `json:"mode"`               // vfs-arm | external
 	K       int64  `json:"k,omitempty"`        // vfs-arm: die before mutation K (counted from process start)
-	What    string `json:"what,omitempty"`     // vfs-arm: the mutation the recorded trace shows at K
+	What    string `json:"what,omitempty"`     // vfs-arm: the mutation the recorded trace shows at K (kind file size)
+	Prev    string `json:"prev,omitempty"`     // vfs-arm: the mutation before it (the last one that happened)
 	Op      int    `json:"op,omitempty"`       // external: SIGKILL when this op has been journalled as started …
 	DelayUS int    `json:"delay_us,omitempty"` // … plus this delay
 }
@@ -103,6 +104,26 @@ type mutation struct {
 	n    int64
 	kind string
 	path string
+	size string
+}
+
+// pos names the kill position for finding signatures.
+func (k killSpec) pos() string {
+	if k.Mode != "vfs-arm" {
+		return "kill-external"
+	}
+	w, p := strings.Fields(k.What), strings.Fields(k.Prev)
+	if len(w) < 2 {
+		return "kill-before:?"
+	}
+	f := w[1]
+	if strings.HasSuffix(f, ".entry") {
+		f = "*.entry"
+	}
+	if len(p) == 3 && w[0] == "write" && p[0] == "write" && p[1] == w[1] && p[2] == "4" {
+		return "kill-between-length-prefix-and-body:" + f
+	}
+	return "kill-before:" + w[0] + ":" + f
 }
 
 type crashWorker struct {
@@ -138,7 +159,11 @@ func (w *crashWorker) readTrace() []mutation {
 			continue
 		}
 		n, _ := strconv.ParseInt(p[0], 10, 64)
-		out = append(out, mutation{n, p[1], filepath.Base(p[2])})
+		sz := "0"
+		if len(p) > 3 {
+			sz = p[3]
+		}
+		out = append(out, mutation{n, p[1], filepath.Base(p[2]), sz})
 	}
 	return out
 }
@@ -188,7 +213,7 @@ func (w *crashWorker) runCrashSequence(cs caseSpec) {
 	}
 	what := map[int64]string{}
 	for _, m := range muts {
-		what[m.n] = m.kind + " " + m.path
+		what[m.n] = m.kind + " " + m.path + " " + m.size
 	}
 	nk := killsPerSequence(c)
 	seen := map[int64]bool{}
@@ -234,7 +259,7 @@ func (w *crashWorker) runCrashSequence(cs caseSpec) {
 				break
 			}
 		}
-		w.crashCase(r.rw, r.salt, crashCtx{Kill: killSpec{Mode: "vfs-arm", K: k, What: what[k]}, ChildOps: ops[:last+1], Seq: r.id, TailSeed: rng.Uint64()}, false)
+		w.crashCase(r.rw, r.salt, crashCtx{Kill: killSpec{Mode: "vfs-arm", K: k, What: what[k], Prev: what[k-1]}, ChildOps: ops[:last+1], Seq: r.id, TailSeed: rng.Uint64()}, false)
 	}
 }
 
@@ -365,7 +390,7 @@ func (w *crashWorker) crashCase(rw int, salt uint64, cc crashCtx, isReplay bool)
 	c.Distinct("kill-mode", cc.Kill.Mode)
 	c.Distinct("kill-inflight", inflightKind)
 	if cc.Kill.Mode == "vfs-arm" {
-		c.Distinct("kill-before-mutation", strings.Fields(cc.Kill.What + " ?")[0]+" "+lastField(cc.Kill.What))
+		c.Distinct("kill-position", cc.Kill.pos())
 	}
 	c.Count("kills", 1)
 
@@ -491,7 +516,7 @@ func (w *crashWorker) judgeRecovery(rw int, salt uint64, dir string, cc crashCtx
 	c.Eval(1)
 	if err := r.open(); err != nil {
 		r.m = old
-		r.fail("recover:init-error:"+errClass(err)+":inflight-"+inflightKind, "Init after SIGKILL: "+err.Error(), nil)
+		r.fail("recover:init-error:"+errClass(err)+":"+cc.Kill.pos()+":inflight-"+inflightKind, "Init after SIGKILL: "+err.Error(), nil)
 		return
 	}
 	r.reopens = 1
@@ -508,7 +533,7 @@ func (w *crashWorker) judgeRecovery(rw int, salt uint64, dir string, cc crashCtx
 		snap, snErr = r.st.Snapshot()
 	}); p != nil {
 		r.m = old
-		r.fail("recover:panic:inflight-"+inflightKind, fmt.Sprintf("first queries after SIGKILL panicked: %v", p), nil)
+		r.fail("recover:panic:"+cc.Kill.pos()+":inflight-"+inflightKind, fmt.Sprintf("first queries after SIGKILL panicked: %v", p), nil)
 		return
 	}
 
@@ -595,7 +620,7 @@ func (w *crashWorker) judgeRecovery(rw int, salt uint64, dir string, cc crashCtx
 		chooseHS, hsNew = newHS, true
 	default:
 		r.m = old
-		r.fail("recover:hardstate-neither-old-nor-new:inflight-"+inflightKind,
+		r.fail("recover:hardstate-neither-old-nor-new:"+cc.Kill.pos()+":inflight-"+inflightKind,
 			fmt.Sprintf("after SIGKILL HardState() = %+v err %v; acknowledged %+v, in flight %+v", hs, hsErr, old.hs, newHS), nil)
 		return
 	}
@@ -606,7 +631,7 @@ func (w *crashWorker) judgeRecovery(rw int, salt uint64, dir string, cc crashCtx
 		chooseSnap = newSnap
 	default:
 		r.m = old
-		r.fail("recover:snapshot-neither-old-nor-new:inflight-"+inflightKind,
+		r.fail("recover:snapshot-neither-old-nor-new:"+cc.Kill.pos()+":inflight-"+inflightKind,
 			fmt.Sprintf("after SIGKILL Snapshot() = index %d term %d err %v; acknowledged index %d, in flight index %d", snap.Metadata.Index, snap.Metadata.Term, snErr, old.snap.Metadata.Index, newSnap.Metadata.Index), nil)
 		return
 	}
@@ -651,7 +676,11 @@ func (w *crashWorker) judgeRecovery(rw int, salt uint64, dir string, cc crashCtx
 		for _, cd := range cands {
 			names = append(names, cd.name)
 		}
-		r.fail(fmt.Sprintf("recover:inflight-%s:%v", inflightKind, firstFail[0]),
+		obs := fmt.Sprint(firstFail[0])
+		if d := w.diagnose(r, old, op); d != "" {
+			obs = d
+		}
+		r.fail(fmt.Sprintf("recover:%s:%s:inflight-%s", obs, cc.Kill.pos(), inflightKind),
 			fmt.Sprintf("after SIGKILL (%s) the directory matches none of the allowed states %v (store last=%d, acknowledged last=%d): %v",
 				vf.JSON(cc.Kill), names, obsLast, old.lastEnt(), firstFail[1]), firstFail[2])
 		return
@@ -691,6 +720,30 @@ func (w *crashWorker) judgeRecovery(rw int, salt uint64, dir string, cc crashCtx
 			c.Sample(map[string]any{"crash_case": cc.Seq, "kill": cc.Kill, "acked_ops": cc.Acked, "inflight": cc.Inflight, "recovered_state": accepted})
 		}
 	}
+}
+
+// diagnose names well-understood wrong states canonically (whichever query met them first).
+func (w *crashWorker) diagnose(r *runner, old *refLog, op *Op) string {
+	if op == nil || op.K != "save" || op.N == 0 {
+		return ""
+	}
+	e, ok := old.get(op.First)
+	if !ok {
+		return ""
+	}
+	out := ""
+	_ = vf.Catch(func() {
+		got, err := r.st.Entries(op.First, op.First+1, 1<<62)
+		if err != nil || len(got) != 1 {
+			return
+		}
+		g := got[0]
+		newTerm := op.Term
+		if g.Index == e.Index && g.Type == e.Type && string(g.Data) == string(e.Data) && g.Term != e.Term && g.Term != newTerm && g.Term>>32 != 0 {
+			out = "stale-entry-at-conflict-index-with-garbage-term"
+		}
+	})
+	return out
 }
 
 func (r *runner) rotationsOnDisk() int {
